@@ -18,21 +18,36 @@ use vibesql_types::SqlValue;
 enum K {
     Null,
     Num(f64),
+    /// integers are compared exactly (f64 merges neighbours from 2^53 upwards)
+    Int(i128),
     Str(Vec<u8>),
     Bool(bool),
+    /// temporal values as their components, most significant first
+    Tup(Vec<i64>),
     Other(String),
 }
 
 fn kval(v: &SqlValue) -> K {
     match v {
         SqlValue::Null => K::Null,
-        SqlValue::Integer(i) | SqlValue::Bigint(i) => K::Num(*i as f64),
-        SqlValue::Smallint(i) => K::Num(*i as f64),
-        SqlValue::Unsigned(u) => K::Num(*u as f64),
+        SqlValue::Integer(i) | SqlValue::Bigint(i) => K::Int(*i as i128),
+        SqlValue::Smallint(i) => K::Int(*i as i128),
+        SqlValue::Unsigned(u) => K::Int(*u as i128),
         SqlValue::Numeric(f) | SqlValue::Double(f) => K::Num(*f),
         SqlValue::Float(f) | SqlValue::Real(f) => K::Num(*f as f64),
         SqlValue::Character(s) | SqlValue::Varchar(s) => K::Str(s.as_bytes().to_vec()),
         SqlValue::Boolean(b) => K::Bool(*b),
+        SqlValue::Date(d) => K::Tup(vec![d.year as i64, d.month as i64, d.day as i64]),
+        SqlValue::Time(t) => K::Tup(vec![t.hour as i64, t.minute as i64, t.second as i64, t.nanosecond as i64]),
+        SqlValue::Timestamp(ts) => K::Tup(vec![
+            ts.date.year as i64,
+            ts.date.month as i64,
+            ts.date.day as i64,
+            ts.time.hour as i64,
+            ts.time.minute as i64,
+            ts.time.second as i64,
+            ts.time.nanosecond as i64,
+        ]),
         other => K::Other(format!("{:?}", other)),
     }
 }
@@ -45,8 +60,12 @@ fn cmp_key(a: &K, b: &K, desc: bool) -> Option<std::cmp::Ordering> {
         (K::Null, _) => return Some(Greater),
         (_, K::Null) => return Some(Less),
         (K::Num(x), K::Num(y)) => x.partial_cmp(y)?,
+        (K::Int(x), K::Int(y)) => x.cmp(y),
+        (K::Int(x), K::Num(y)) => (*x as f64).partial_cmp(y)?,
+        (K::Num(x), K::Int(y)) => x.partial_cmp(&(*y as f64))?,
         (K::Str(x), K::Str(y)) => x.cmp(y),
         (K::Bool(x), K::Bool(y)) => x.cmp(y),
+        (K::Tup(x), K::Tup(y)) if x.len() == y.len() => x.cmp(y),
         _ => return None,
     };
     Some(if desc { o.reverse() } else { o })
@@ -828,6 +847,41 @@ const PROBES: &[Probe] = &[
         order: "ORDER BY k DESC",
         keys: &[(0, true)],
     },
+    Probe {
+        name: "TIME keys differing only below the second, sort path",
+        setup: &["CREATE TABLE t (k TIME, v INTEGER)", "INSERT INTO t VALUES (TIME '10:00:00.900', 1), (TIME '10:00:00.100', 2), (TIME '10:00:00.100000001', 3), (TIME '10:00:00.100001', 4), (TIME '10:00:00', 5), (NULL, 6), (TIME '10:00:00.101', 7)"],
+        base: "SELECT k, v FROM t",
+        order: "ORDER BY k",
+        keys: &[(0, false)],
+    },
+    Probe {
+        name: "TIMESTAMP keys differing only below the second, DESC, second key position",
+        setup: &["CREATE TABLE t (k TIMESTAMP, v INTEGER)", "INSERT INTO t VALUES (TIMESTAMP '2024-03-01 10:00:00.100', 1), (TIMESTAMP '2024-03-01 10:00:00.900', 1), (TIMESTAMP '2024-03-01 10:00:00.100000001', 1), (TIMESTAMP '2024-03-01 10:00:00.100001', 2), (TIMESTAMP '2024-03-01 10:00:00', 2), (TIMESTAMP '2024-03-01 10:00:00.5', 2)"],
+        base: "SELECT k, v FROM t",
+        order: "ORDER BY v, k DESC",
+        keys: &[(1, false), (0, true)],
+    },
+    Probe {
+        name: "TIMESTAMP NOT NULL with ASC index (index-order path), sub-second differences",
+        setup: &["CREATE TABLE t (k TIMESTAMP NOT NULL, v INTEGER)", "INSERT INTO t VALUES (TIMESTAMP '2024-03-01 10:00:00.900', 1), (TIMESTAMP '2024-03-01 10:00:00.100', 2), (TIMESTAMP '2024-03-01 10:00:00.100000001', 3), (TIMESTAMP '2024-03-01 10:00:00.100001', 4), (TIMESTAMP '2024-03-01 09:59:59.999999999', 5)", "CREATE INDEX ik ON t (k)"],
+        base: "SELECT k, v FROM t",
+        order: "ORDER BY k",
+        keys: &[(0, false)],
+    },
+    Probe {
+        name: "TIME with (k DESC) index, ORDER BY k DESC",
+        setup: &["CREATE TABLE t (k TIME, v INTEGER)", "INSERT INTO t VALUES (TIME '10:00:00.100', 1), (TIME '10:00:00.900', 2), (TIME '10:00:00.100000001', 3), (NULL, 4), (TIME '10:00:00.5', 5)", "CREATE INDEX ik ON t (k DESC)"],
+        base: "SELECT k, v FROM t",
+        order: "ORDER BY k DESC",
+        keys: &[(0, true)],
+    },
+    Probe {
+        name: "NUMERIC / DOUBLE keys with tiny differences and -0.0",
+        setup: &["CREATE TABLE t (k NUMERIC(20, 10), f DOUBLE)", "INSERT INTO t VALUES (1.0000000002, 1.0000000000000002), (1.0000000001, 1.0), (1.0000000003, -0.0), (0.9999999999, 0.0), (-1.0000000001, 1.0e-300), (NULL, 1.5e-300)"],
+        base: "SELECT k, f FROM t",
+        order: "ORDER BY f DESC, k",
+        keys: &[(1, true), (0, false)],
+    },
     Probe { name: "empty table", setup: &["CREATE TABLE t (a INTEGER, b INTEGER)"], base: "SELECT a, b FROM t", order: "ORDER BY a, b DESC", keys: &[(0, false), (1, true)] },
 ];
 
@@ -917,6 +971,81 @@ fn run_in_order(rep: &mut Report, rng: &mut Rng) {
     cx.rep.case(&case_id, nontrivial);
 }
 
+/// sort keys of every orderable column type the engine stores; neighbouring values differ only in
+/// the least significant component
+const TYPED: &[(&str, &str, &[&str])] = &[
+    ("TIME", "TIME", &["TIME '10:00:00.900'", "TIME '10:00:00.100'", "TIME '10:00:00.100000001'", "TIME '10:00:00.100001'", "TIME '10:00:00.101'", "TIME '10:00:00'", "TIME '10:00:01'", "TIME '09:59:59.999999999'"]),
+    ("TIMESTAMP", "TIMESTAMP", &["TIMESTAMP '2024-03-01 10:00:00.900'", "TIMESTAMP '2024-03-01 10:00:00.100'", "TIMESTAMP '2024-03-01 10:00:00.100000001'", "TIMESTAMP '2024-03-01 10:00:00.100001'", "TIMESTAMP '2024-03-01 10:00:00.101'", "TIMESTAMP '2024-03-01 10:00:00'", "TIMESTAMP '2024-02-29 23:59:59.999999999'", "TIMESTAMP '2024-03-01 10:00:01'"]),
+    ("DATE", "DATE", &["DATE '2024-03-01'", "DATE '2024-02-29'", "DATE '2024-03-02'", "DATE '2023-12-31'", "DATE '2024-01-01'", "DATE '2024-02-28'"]),
+    ("NUMERIC", "NUMERIC(20, 10)", &["1.0000000002", "1.0000000001", "1.0000000003", "0.9999999999", "-1.0000000001", "0", "-1.0000000002"]),
+    ("DOUBLE", "DOUBLE", &["1.5e-300", "-0.0", "0.0", "1.0e-300", "1.0000000000000002", "1.0", "-1.0000000000000002", "-1.0"]),
+    ("BOOLEAN", "BOOLEAN", &["TRUE", "FALSE"]),
+    ("CHAR", "CHAR(5)", &["'abc'", "'abd'", "'ab'", "'aB'", "'ab  a'", "'a'", "'ab '"]),
+    ("VARCHAR", "VARCHAR(20)", &["'é'", "'e'", "'E'", "'z'", "'Z'", "'ée'", "'éd'", "'日本'", "'日'", "'a'", "'ab'", "'ab '"]),
+    ("BIGINT", "BIGINT", &["9223372036854775807", "9223372036854775806", "-9223372036854775807", "-9223372036854775806", "0", "1", "-1"]),
+    ("SMALLINT", "SMALLINT", &["32767", "32766", "-32768", "-32767", "0", "1"]),
+];
+
+/// ORDER BY over a typed key column `k` (alone, first, second or last of a multi-key list), with and
+/// without an index that can provide the order, LIMIT/OFFSET included
+fn run_typed(rep: &mut Report, rng: &mut Rng, which: usize) {
+    let (tname, decl, pool) = TYPED[which % TYPED.len()];
+    let not_null = rng.chance(1, 2);
+    let n = *rng.pick(&[2usize, 3, 5, 8, 12]);
+    let mut vals: Vec<String> = vec![];
+    for i in 0..n {
+        let k = if !not_null && rng.chance(1, 7) { "NULL".to_string() } else { (*rng.pick(pool)).to_string() };
+        vals.push(format!("({}, {}, {})", k, rng.range(0, 2), i));
+    }
+    let create = format!("CREATE TABLE t (k {}{}, j INTEGER NOT NULL, id INTEGER NOT NULL)", decl, if not_null { " NOT NULL" } else { "" });
+    // key lists with k in every position
+    let uniform = rng.chance(1, 2);
+    let d0 = rng.chance(1, 2);
+    let mut dir = |rng: &mut Rng| if uniform { d0 } else { rng.chance(1, 2) };
+    let shape: Vec<(&str, usize, bool)> = match rng.below(5) {
+        0 | 1 => vec![("k", 0, dir(rng))],
+        2 => vec![("k", 0, dir(rng)), ("j", 1, dir(rng))],
+        3 => vec![("j", 1, dir(rng)), ("k", 0, dir(rng))],
+        _ => vec![("j", 1, dir(rng)), ("k", 0, dir(rng)), ("id", 2, dir(rng))],
+    };
+    let order = format!("ORDER BY {}", shape.iter().map(|(c, _, d)| format!("{}{}", c, if *d { " DESC" } else { "" })).collect::<Vec<_>>().join(", "));
+    let ks: Vec<KeySpec> = shape.iter().map(|(_, i, d)| KeySpec { idx: *i, desc: *d }).collect();
+    let index = format!("CREATE INDEX ik ON t ({})", shape.iter().map(|(c, _, d)| format!("{}{}", c, if *d { " DESC" } else { " ASC" })).collect::<Vec<_>>().join(", "));
+    let base = "SELECT k, j, id FROM t";
+    let insert = format!("INSERT INTO t VALUES {}", vals.join(", "));
+    let mut dbs = [Db::new(), Db::new()];
+    for (i, db) in dbs.iter_mut().enumerate() {
+        db.keep_log = false;
+        if !db.exec(&create).is_ok() || !db.exec(&insert).is_ok() {
+            rep.count(&format!("typed_setup_rejected_{}", tname));
+            rep.case(&format!("typed {} {}", create, insert), false);
+            return;
+        }
+        if i == 1 && !db.exec(&index).is_ok() {
+            rep.count("typed_index_rejected");
+        }
+    }
+    let script = format!("{};\n{};\n", create, insert);
+    let los = lo_set(rng, n, 5);
+    let mut cx = Ctx { rep, script: script.clone(), kind: "typed-key" };
+    let a = check_ordered(&mut dbs[0], base, &order, &ks, &los, &mut cx, &format!("{} no index", tname));
+    cx.script.push_str(&format!("{};\n", index));
+    let b = check_ordered(&mut dbs[1], base, &order, &ks, &los, &mut cx, &format!("{} with index", tname));
+    let mut nontrivial = false;
+    if let (Some((_, fa)), Some((_, fb))) = (&a, &b) {
+        let k = key_strings(fa, &ks);
+        let mut d = k.clone();
+        d.sort();
+        d.dedup();
+        nontrivial = d.len() >= 2;
+        if k != key_strings(fb, &ks) || bag(fa) != bag(fb) {
+            cx.rep.fail(FailKind::Oracle, None, &format!("typed-key: ordered result differs with and without the index [{}]", tname), &format!("{}-- query: {} {}\nwithout: {}\nwith:    {}", cx.script, base, order, rows_sx_vals(fa), rows_sx_vals(fb)));
+        }
+    }
+    cx.rep.count(&format!("typed_key_{}", tname));
+    cx.rep.case(&format!("typed {} {} {}", script, order, index), nontrivial);
+}
+
 /// regression probe for 1db75cd3: SIMD filter path (>= 100 rows, WHERE) with a NULL in the first row's VARCHAR
 fn probe_simd(rep: &mut Report) {
     let mut db = Db::new();
@@ -953,6 +1082,10 @@ fn main() {
     let n = args.n(1500, 40000);
     for i in 0..n {
         let mut r = rng.fork();
+        if i % 3 == 1 {
+            let mut r3 = r.fork();
+            run_typed(&mut rep, &mut r3, (i / 3) as usize);
+        }
         if i % 5 == 2 {
             let mut r2 = r.fork();
             run_in_order(&mut rep, &mut r2);
